@@ -170,6 +170,7 @@ CHECKS = {
             dict(name="mem", run="^TestMemTxn$", quick=2000, thorough=20000, shards=4),
             dict(name="serial", run="^TestSerialTxn$", quick=2000, thorough=20000, shards=4),
             dict(name="isolation", run="^TestIsolation$", quick=100, thorough=1000, shards=4),
+            dict(name="stale", run="^TestStale$", quick=60, thorough=400, shards=4, quick_shards=2),
         ],
     ),
     "C14": dict(
